@@ -27,6 +27,7 @@ META = {
         "error args / labels equal the scripted outcome (TimeoutError iff the body was cancelled by the timeout); "
         "after a failed save the message still completes and every later message is processed and stored. "
         "distinct_nontrivial = distinct terminal per-message logs."
+        " Fault-overlap family (mc/fault_overlap.py): message X suffers one fault out of {pre_execute/post_execute/post_save/on_error hook, sync or async ack, result backend} x {RuntimeError, CancelledError, TimeoutError}, backend failing once, body raise/CancelledError/timeout/no-result, malformed/unknown message, broker stream error, while the healthy message Y has suspension points before, inside and after its function and the stop request may arrive at any point; Y's result is stored exactly once and reflects its outcome, so is X's for body outcomes and backend failures with an Exception; X is exempt for hook / ack faults, CancelledError from the backend and junk."
     ),
     "assumptions": [
         "sync tasks run on a fake executor: completion is an explorer event; in the 'threads' scenarios each sync function runs on a real thread under a strict baton hand-off (entering and leaving the function are separate explorer events, so executions overlap), otherwise atomically with no thread",
@@ -83,7 +84,7 @@ class C07World(RecvWorld):
             return
         i = ev[1]
         m = self.msgs[i]
-        if m["kind"] != "valid":
+        if m["kind"] != "valid" or self.relaxed(i):
             return
         self.results_checked += 1
         saves = [r for (k, r) in self.saved if k == i]
@@ -133,7 +134,7 @@ class C07World(RecvWorld):
         # callback has ended has been acknowledged
         for i in self.cb_done:
             m = self.msgs[i]
-            if m["ack"] is not None and m["kind"] == "valid" and not any(e[0] == "ACK_E" for e in self.per[i]) and i not in getattr(self, "_ack_flagged", set()):
+            if m["ack"] is not None and m["kind"] == "valid" and not self.relaxed(i) and not any(e[0] == "ACK_E" for e in self.per[i]) and i not in getattr(self, "_ack_flagged", set()):
                 self.__dict__.setdefault("_ack_flagged", set()).add(i)
                 self.flag("C07:processing-ended-without-ack", f"message {i} (save_fails={m['save_fails']}) finished processing but was never acknowledged: {self.per[i]}")
 
@@ -207,6 +208,16 @@ def scenarios(tier: str) -> List[Dict[str, Any]]:
         _m("sync", value=7), _m("sync", outcome="raise"), _m("sync", outcome="noresult"),
         _m("sync", outcome="never", timeout=0.2), _m("sync", timeout=0.2, value="late"), _m("sync", outcome="raise", exc="CustomBase"),
     ]
+    # one fault in message X (hook / ack / backend / body / junk) while Y is in flight, stop request at any
+    # point (mc/fault_overlap.py): Y's result is stored exactly once and reflects its outcome; so is X's for
+    # the faults the property quantifies over (body outcomes, backend failures with an Exception)
+    from mc import fault_overlap as fo
+
+    for a in ((3,) if tier == "quick" else (2, 3)):
+        for sc in fo.family(tier, a=a, only=("hook", "ack", "save", "body", "junk"), orders=(True, False) if tier == "thorough" else (True,)):
+            k, d = sc["fault"]
+            sc["relax_x"] = k in ("hook", "ack", "junk") or (k == "save" and d == "cancel")
+            out.append(sc)
     for j1, j2 in itertools.product(range(len(sync_base)), repeat=2):
         sc = _sc([dict(sync_base[j1]), dict(sync_base[j2])], 0)
         sc["executor"] = "threads"
